@@ -44,8 +44,10 @@ def main():
         junit = "/tmp/seedverify_%s.xml" % sid
         base = json.load(open("/root/.vp/BASELINE.json"))
         files = sorted({"tests/" + x.split(".")[1] + ".py" for x in base["stable_pass"]})
-        t = sh("timeout 1500 /venv/bin/python -m pytest -q -p no:cacheprovider --timeout=300 --continue-on-collection-errors "
-               "--junitxml=%s %s" % (junit, " ".join(files)), env=env, cwd=wt)
+        # a private network namespace: test_registry binds the fixed port 18811 and would collide with any other suite run
+        t = sh("unshare -n sh -c 'ip link set lo up; ip route add 255.255.255.255/32 dev lo; exec timeout 1500 /venv/bin/python -m pytest "
+               "-q -p no:cacheprovider --timeout=300 --continue-on-collection-errors "
+               "--junitxml=%s %s'" % (junit, " ".join(files)), env=env, cwd=wt)
         passed = set()
         try:
             for tc in ET.parse(junit).getroot().iter("testcase"):
